@@ -54,6 +54,7 @@ class PaneBase:
         eq: t.Optional[bool] = None,
         order: t.Optional[bool] = None,
         frozen: t.Optional[bool] = None,
+        unsafe_hash: t.Optional[bool] = None,
         kw_only: t.Optional[bool] = None,
         rename: t.Optional[RenameStyle] = None,
         in_rename: t.Optional[t.Union[RenameStyle, t.Sequence[RenameStyle]]] = None,
@@ -78,7 +79,7 @@ class PaneBase:
         opts: PaneOptions = getattr(cls, PANE_INFO).opts if hasattr(cls, PANE_INFO) else PaneOptions()
         opts = opts.replace(
             name=name, out_format=out_format, in_format=in_format,
-            eq=eq, order=order, frozen=frozen, allow_extra=allow_extra,
+            eq=eq, order=order, frozen=frozen, unsafe_hash=unsafe_hash, allow_extra=allow_extra,
             kw_only=kw_only, in_rename=in_rename, out_rename=out_rename,
             class_handlers=ConverterHandlers._process(custom),
         )
